@@ -30,3 +30,40 @@ Theorem C05_witness_expression : forall jet args vals r t n v, lookupN vals n = 
   sem jet (populate vals) args r (EWitness t n) = Val (structural v).
 Proof. intros. cbn. unfold populate. now rewrite H. Qed.
 Print Assumptions C05_witness_expression.
+
+(* ---- shrinking a witness value to the (inferred, smaller) type of its node: named.rs prune_value / prune_witness_values ---- *)
+Require Import SV.Simp.Typing SV.Wit.Prune SV.Proofs.PruneCorrect.
+
+(* the literal stack machine + bit encoding + byte padding + decoder of prune_value computes the structural description *)
+Theorem C05_prune_value_is_prune : forall v t, prune_value_bytes v t = prune v t /\ prune_value v t = prune v t.
+Proof. intros v t. split; [apply prune_value_bytes_eq_prune | apply prune_value_eq_prune]. Qed.
+Print Assumptions C05_prune_value_is_prune.
+
+(* its result has exactly the node's type; a value of the declared layout can be shrunk to every shrunk type; a value that
+   already has the node's type is kept *)
+Theorem C05_prune_typed_total : forall t' v t,
+  (forall w, prune v t' = Some w -> vty w t' = true) /\
+  (vty v t = true -> shrinks t' t = true -> exists w, prune v t' = Some w) /\
+  (vty v t = true -> prune v t = Some v).
+Proof. intros t' v t. split; [|split]. - intros w. apply prune_typed. - apply prune_total. - apply prune_id. Qed.
+Print Assumptions C05_prune_typed_total.
+
+(* every witness node of the satisfied program holds a value of exactly its own type, for a consistent witness map *)
+Theorem C05_pruned_witnesses_typed : forall vals decl wty,
+  NoDup (map fst vals) -> forallb (fun nv => value_wf (snd nv)) vals = true -> wit_consistent vals decl = true ->
+  (forall n ty, wty n = Some ty -> exists T v, decl n = Some T /\ lookupN vals n = Some v /\ shrinks ty (struct_ty T) = true) ->
+  forall n b, wty n = Some b -> exists v, prune_witness wty (populate vals) n = Some v /\ vty v b = true.
+Proof. intros vals decl wty ND Hwf Hc H. apply prune_witness_typed. eapply consistent_witnesses_shrinkable; eauto. Qed.
+Print Assumptions C05_pruned_witnesses_typed.
+
+(* the program cannot tell the shrunk witnesses from the supplied ones: with typed jets, a program that is well typed with
+   the witness nodes at the smaller types succeeds / fails alike on both *)
+Theorem C05_pruning_is_unobservable : forall wty wit jsig_s jet,
+  witnesses_shrinkable wty wit ->
+  forall t,
+  (forall j a b v w, jsig_s j = Some (a, b) -> vty v a = true -> jet j v = Some w -> vty w b = true) ->
+  tj jsig_s wty t SUnit SUnit -> jets_on jet wit (jet_input_typed jsig_s) t VU ->
+  ((exists v, eval jet wit t VU = Val v) /\ eval jet (prune_witness wty wit) t VU = Val VU) \/
+  (eval jet wit t VU = Failed /\ eval jet (prune_witness wty wit) t VU = Failed).
+Proof. exact prune_witness_program. Qed.
+Print Assumptions C05_pruning_is_unobservable.
